@@ -15,6 +15,16 @@ package main
 //     sub between ID tokens and userinfo after the pairwise transformation.
 // Each failed check is a Finding "<artifact kind>:<claim>".  The same responses, abstracted to flat
 // atom lists, are compared with Model/Artifacts.v by Corr/C08.v (cases_NNN.v).
+//
+// Every configuration is additionally drawn from: path prefix ("", "/auth", "/a/b"), issuer variant
+// (plain host, host:port, issuer with a path), subject configuration (subject_type public / pairwise /
+// absent x default subject type public / pairwise, with and without a pairwise function, sector
+// identifier), delegated signing (provider.WithSignFunc with a key set that holds only the public halves
+// of the signing keys).  The relying party's view is taken literally: the discovery document is fetched
+// from <prefix>/.well-known/openid-configuration, every endpoint and the jwks_uri are read from it, the
+// keys are fetched from that jwks_uri, and iss of every artifact is compared with discovery's issuer.
+// A deterministic cross section (every artifact kind x prefix x issuer variant x client algorithm
+// choice x subject configuration) is run for every seed; the covered matrix is printed into meta.json.
 
 import (
 	"context"
@@ -49,6 +59,7 @@ import (
 type c08KeySet struct {
 	rsa, rsaEnc              *rsa.PrivateKey
 	ec256, ec384, ec521      *ecdsa.PrivateKey
+	ecEnc                    *ecdsa.PrivateKey // a server ECDH-ES key (P-384)
 	clientRSA                *rsa.PrivateKey
 	clientEC                 *ecdsa.PrivateKey
 }
@@ -75,7 +86,7 @@ func c08Keys() *c08KeySet {
 	}
 	r := mustRSA() // one RSA key serves RS*/PS* and, under other kids, the encryption roles
 	c08K = &c08KeySet{rsa: r, rsaEnc: mustRSA(), ec256: mustEC(elliptic.P256()), ec384: mustEC(elliptic.P384()),
-		ec521: mustEC(elliptic.P521()), clientEC: mustEC(elliptic.P256())}
+		ec521: mustEC(elliptic.P521()), clientEC: mustEC(elliptic.P256()), ecEnc: mustEC(elliptic.P384())}
 	c08K.clientRSA = c08K.rsaEnc // the client's RSA encryption key (a different party; same material saves a keygen)
 	return c08K
 }
@@ -89,6 +100,7 @@ const (
 	pairEC384 = 3
 	pairEC521 = 4
 	pairSrvEnc = 5
+	pairSrvECEnc = 6
 	pairClientRSA = 11
 	pairClientEC = 12
 )
@@ -105,11 +117,26 @@ func (k *c08KeySet) signerFor(alg string) (any, int, string) {
 	return k.rsa, pairRSA, "KtyRSA"
 }
 
-// what the embedder's JWKSFunc returns: one signing key per algorithm plus an encryption key
-func (k *c08KeySet) serverJWKS() goidc.JSONWebKeySet {
+func c08PublicOf(key any) any {
+	switch p := key.(type) {
+	case *rsa.PrivateKey:
+		return &p.PublicKey
+	case *ecdsa.PrivateKey:
+		return &p.PublicKey
+	}
+	return key
+}
+
+// what the embedder's JWKSFunc returns: one signing key per algorithm plus an encryption key.
+// publicSig: signing is delegated (provider.WithSignFunc) and the set holds only the public halves of
+// the signing keys; the encryption key stays private (request objects are still decrypted with it).
+func (k *c08KeySet) serverJWKS(publicSig bool) goidc.JSONWebKeySet {
 	var ks []goidc.JSONWebKey
 	for _, a := range c08SigAlgs {
 		key, _, _ := k.signerFor(a)
+		if publicSig {
+			key = c08PublicOf(key)
+		}
 		ks = append(ks, goidc.JSONWebKey{Key: key, KeyID: "srv-" + strings.ToLower(a), Algorithm: a, Use: "sig"})
 	}
 	ks = append(ks, goidc.JSONWebKey{Key: k.rsaEnc, KeyID: "srv-enc", Algorithm: "RSA-OAEP-256", Use: "enc"})
@@ -139,7 +166,7 @@ func (k *c08KeySet) pairOf(pub any) int {
 		for _, c := range []struct {
 			k *ecdsa.PrivateKey
 			n int
-		}{{k.ec256, pairEC256}, {k.ec384, pairEC384}, {k.ec521, pairEC521}} {
+		}{{k.ec256, pairEC256}, {k.ec384, pairEC384}, {k.ec521, pairEC521}, {k.ecEnc, pairSrvECEnc}} {
 			if p.Curve == c.k.Curve && p.X.Cmp(c.k.X) == 0 && p.Y.Cmp(c.k.Y) == 0 {
 				return c.n
 			}
@@ -309,14 +336,77 @@ type c08Cfg struct {
 	ClUiAlg     string
 	ClJarmAlg   string
 	ClEnc       string // "", RSA-OAEP-256, ECDH-ES
-	Pairwise    bool
-	JWTTokens   bool
+	// subjects: the client's subject_type ("public", "pairwise" or "" = absent), whether the provider's
+	// DEFAULT subject type is pairwise, whether a pairwise function is configured (without one the
+	// pairwise subject is the subject itself), whether the client registered a sector_identifier_uri
+	SubType         string
+	DefaultPairwise bool
+	NoPairwiseFn    bool
+	Sector          bool
+	// mounting: endpoint prefix (provider.WithPathPrefix) and issuer ("" = the harness's default)
+	Prefix string
+	Issuer string
+	// signing delegated to provider.WithSignFunc; the key set then holds only public signing keys
+	SignFunc  bool
+	JWTTokens bool
 	RespType    string
 	RespMode    string
 	State       string
 	Nonce       string
 	Sub         string
 	Scopes      string
+
+	disc *c08Disc // the discovery document of the provider built from this configuration (set by the run)
+}
+
+var c08Prefixes = []string{"", "/auth", "/a/b"}
+var c08Issuers = []string{"", "https://as.example:8443", "https://login.example/tenant1"}
+
+func (cf c08Cfg) issuer() string {
+	if cf.Issuer != "" {
+		return cf.Issuer
+	}
+	return issuer
+}
+
+// the issuer the relying party expects: the one the discovery document names
+func (cf c08Cfg) wantIss() string {
+	if cf.disc != nil {
+		return cf.disc.Issuer
+	}
+	return cf.issuer()
+}
+func (cf c08Cfg) issuerKind() string {
+	switch cf.Issuer {
+	case "":
+		return "host"
+	case c08Issuers[1]:
+		return "host:port"
+	}
+	return "host/path"
+}
+
+// shouldGeneratePairwiseSub, as the registration determines it
+func (cf c08Cfg) pairwise() bool {
+	return cf.SubType == "pairwise" || (cf.SubType == "" && cf.DefaultPairwise)
+}
+func (cf c08Cfg) subjectConfig() string {
+	st := cf.SubType
+	if st == "" {
+		st = "absent"
+	}
+	d := "public"
+	if cf.DefaultPairwise {
+		d = "pairwise"
+	}
+	s := "subject_type=" + st + ",default=" + d
+	if cf.Sector {
+		s += ",sector_identifier_uri"
+	}
+	if cf.NoPairwiseFn {
+		s += ",no-pairwise-func"
+	}
+	return s
 }
 
 const c08Client = "c1"
@@ -342,7 +432,7 @@ func (cf c08Cfg) jarmAlg() string {
 	return cf.SrvAlg
 }
 func (cf c08Cfg) exportSub() string {
-	if cf.Pairwise {
+	if cf.pairwise() && !cf.NoPairwiseFn {
 		return "pw:" + c08Client + ":" + cf.Sub
 	}
 	return cf.Sub
@@ -375,9 +465,42 @@ func cOptN(n int) string {
 
 func (cf c08Cfg) acfgCoq() string {
 	k := c08Keys()
-	return fmt.Sprintf("(mkACfg %s %s %s false %s %s %s false %s %s %s 600%%Z %s %s false true)",
-		cS(issuer), k.serverJWKSCoq(), cf.SrvAlg, cZ(cf.IdtLifetime), cB(cf.Enc), cf.SrvAlg, cB(cf.Enc),
-		cB(cf.JARM), cf.SrvAlg, cB(cf.Enc), cB(cf.IssuerParam))
+	// a SignerFunc is modelled as the holder of the private halves: the model signs with the keys of
+	// the set (Props/C08.v delegated_signature_verifies_under_published_key relates the two)
+	return fmt.Sprintf("(mkACfg %s %s %s false %s %s %s false %s %s %s 600%%Z %s %s %s %s)",
+		cS(cf.issuer()), k.serverJWKSCoq(), cf.SrvAlg, cZ(cf.IdtLifetime), cB(cf.Enc), cf.SrvAlg, cB(cf.Enc),
+		cB(cf.JARM), cf.SrvAlg, cB(cf.Enc), cB(cf.IssuerParam), cB(cf.DefaultPairwise), cB(!cf.NoPairwiseFn))
+}
+
+// the configuration as the /jwks endpoint sees it: the key set as JWKSFunc returns it
+func (cf c08Cfg) acfgMetaCoq() string {
+	k := c08Keys()
+	keys := k.serverJWKSCoq()
+	if cf.SignFunc {
+		var parts []string
+		for _, a := range c08SigAlgs {
+			_, pair, kty := k.signerFor(a)
+			parts = append(parts, fmt.Sprintf("mkJwk %s (ASig %s) UseSig (%s) %d false", cS("srv-"+strings.ToLower(a)), a, kty, pair))
+		}
+		parts = append(parts, fmt.Sprintf("mkJwk %s (AEnc 1) UseEnc KtyRSA %d true", cS("srv-enc"), pairSrvEnc))
+		keys = "[" + strings.Join(parts, "; ") + "]"
+	}
+	return fmt.Sprintf("(mkACfg %s %s %s false %s %s %s false %s %s %s 600%%Z %s %s %s %s)",
+		cS(cf.issuer()), keys, cf.SrvAlg, cZ(cf.IdtLifetime), cB(cf.Enc), cf.SrvAlg, cB(cf.Enc),
+		cB(cf.JARM), cf.SrvAlg, cB(cf.Enc), cB(cf.IssuerParam), cB(cf.DefaultPairwise), cB(!cf.NoPairwiseFn))
+}
+func (cf c08Cfg) khCoq() string {
+	signer := "None"
+	if cf.SignFunc {
+		k := c08Keys()
+		var parts []string
+		for _, a := range c08SigAlgs {
+			_, pair, _ := k.signerFor(a)
+			parts = append(parts, fmt.Sprintf("(%s, (%s, %d))", a, cS("srv-"+strings.ToLower(a)), pair))
+		}
+		signer = "(Some [" + strings.Join(parts, "; ") + "])"
+	}
+	return fmt.Sprintf("(mkKeyHandling %s %s false)", cS(cf.Prefix), signer)
 }
 func (cf c08Cfg) aclientCoq() string {
 	e := cOptN(cf.encPair())
@@ -387,8 +510,9 @@ func (cf c08Cfg) aclientCoq() string {
 		// registered for encryption although the server has it disabled: the model must ignore it too
 		e = cOptN(map[string]int{"RSA-OAEP-256": pairClientRSA, "ECDH-ES": pairClientEC}[cf.ClEnc])
 	}
-	return fmt.Sprintf("(mkAClient %s %s %s %s %s %s %s (Some %s))", cS(c08Client), cOptAlg(cf.ClIdtAlg), e,
-		cOptAlg(cf.ClUiAlg), e, cOptAlg(cf.ClJarmAlg), e, cB(cf.Pairwise))
+	st := map[string]string{"": "None", "public": "(Some false)", "pairwise": "(Some true)"}[cf.SubType]
+	return fmt.Sprintf("(mkAClient %s %s %s %s %s %s %s %s)", cS(c08Client), cOptAlg(cf.ClIdtAlg), e,
+		cOptAlg(cf.ClUiAlg), e, cOptAlg(cf.ClJarmAlg), e, st)
 }
 func (cf c08Cfg) tokoptsCoq() string {
 	return fmt.Sprintf("(mkTokOpts %s %s %s)", cB(cf.JWTTokens), cf.SrvAlg, cZ(cf.TokLifetime))
@@ -401,9 +525,139 @@ type c08Run struct {
 	cases    []string
 	notes    []map[string]any
 	arts     map[string]int
+	matrix   map[string]int // the covered configuration matrix (artifact kind @ where issued x configuration dimension)
+	metaSeen map[string]bool
+	site     string // where the artifact being opened was issued
 	seen     map[string]bool
 	nontriv  int
 }
+
+func newC08Run(ctx *RunCtx) *c08Run {
+	return &c08Run{ctx: ctx, findings: map[string]Finding{}, arts: map[string]int{}, matrix: map[string]int{},
+		metaSeen: map[string]bool{}, seen: map[string]bool{}}
+}
+
+// cover records one verified artifact in the configuration matrix
+func (r *c08Run) cover(kind string, cf c08Cfg, signed bool) {
+	own := "default"
+	switch kind {
+	case "id_token":
+		if cf.ClIdtAlg != "" {
+			own = "client"
+		}
+	case "userinfo":
+		if cf.ClUiAlg != "" {
+			own = "client"
+		}
+	case "jarm":
+		if cf.ClJarmAlg != "" {
+			own = "client"
+		}
+	default:
+		own = "token-options"
+	}
+	a := kind + "@" + r.site
+	if !signed {
+		a += "(unsigned)"
+	}
+	r.matrix[fmt.Sprintf("%s | prefix=%q | issuer=%s | alg-choice=%s", a, cf.Prefix, cf.issuerKind(), own)]++
+	r.matrix[fmt.Sprintf("%s | %s", a, cf.subjectConfig())]++
+	r.matrix[fmt.Sprintf("%s | signfunc=%v | encrypted=%v", a, cf.SignFunc, cf.encPair() != 0)]++
+}
+
+// what a relying party reads from the discovery document
+type c08Disc struct {
+	Issuer   string `json:"issuer"`
+	JWKSURI  string `json:"jwks_uri"`
+	Authz    string `json:"authorization_endpoint"`
+	Token    string `json:"token_endpoint"`
+	Userinfo string `json:"userinfo_endpoint"`
+}
+
+// path: the request target of an advertised endpoint (the embedder mounts the handler at the issuer)
+func (cf c08Cfg) path(endpoint string) string {
+	if strings.HasPrefix(endpoint, cf.issuer()) {
+		return endpoint[len(cf.issuer()):]
+	}
+	if u, err := url.Parse(endpoint); err == nil {
+		return u.Path
+	}
+	return endpoint
+}
+
+// discover fetches the discovery document from where the provider serves it, checks that it names the
+// configured issuer and endpoints under the prefix, fetches the key set from the advertised jwks_uri,
+// and emits the CMeta model case.  On success cf.disc is set.
+func (r *c08Run) discover(h http.Handler, cf *c08Cfg) ([]pubJWK, bool) {
+	target := cf.Prefix + "/.well-known/openid-configuration"
+	rec := c08Serve(h, "GET", target, nil, nil)
+	var d c08Disc
+	if rec.Code != 200 || json.Unmarshal(rec.Body.Bytes(), &d) != nil {
+		r.fail("discovery", "format", fmt.Sprintf("GET %s: status %d", target, rec.Code), *cf, map[string]any{"response": truncate(rec.Body.String(), 600)})
+		return nil, false
+	}
+	rp := map[string]any{"discovery": d, "request": "GET " + target}
+	if d.Issuer != cf.issuer() {
+		r.fail("discovery", "issuer", fmt.Sprintf("issuer = %q, the provider was created with %q", d.Issuer, cf.issuer()), *cf, rp)
+	}
+	for name, e := range map[string]string{"jwks_uri": d.JWKSURI, "authorization_endpoint": d.Authz, "token_endpoint": d.Token, "userinfo_endpoint": d.Userinfo} {
+		if !strings.HasPrefix(e, cf.issuer()+cf.Prefix+"/") {
+			r.fail("discovery", "endpoint", fmt.Sprintf("%s = %q is not under %q", name, e, cf.issuer()+cf.Prefix), *cf, rp)
+		}
+	}
+	cf.disc = &d
+	rec = c08Serve(h, "GET", cf.path(d.JWKSURI), nil, nil)
+	keys, err := parseJWKS(rec.Body.Bytes())
+	if err != nil || rec.Code != 200 {
+		r.fail("jwks", "format", fmt.Sprintf("GET %s: status %d, %v", cf.path(d.JWKSURI), rec.Code, err), *cf, rp)
+		return nil, false
+	}
+	var mo atoms
+	mo.S(d.Issuer)
+	mo.S(d.JWKSURI)
+	for _, k := range keys {
+		priv := 0
+		for _, m := range k.Members {
+			switch m {
+			case "d", "p", "q", "dp", "dq", "qi", "k", "oth":
+				priv = 1
+				r.fail("jwks", "private-member", fmt.Sprintf("GET %s: key %q publishes the private member %q", cf.path(d.JWKSURI), k.Kid, m), *cf, rp)
+			}
+		}
+		mo.S(k.Kid)
+		mo.N(c08KalgIx(k.Alg))
+		mo.N(c08Keys().pairOf(k.Pub))
+		mo.N(priv)
+	}
+	r.matrix[fmt.Sprintf("jwks+discovery | prefix=%q | issuer=%s | signfunc=%v", cf.Prefix, cf.issuerKind(), cf.SignFunc)]++
+	if key := fmt.Sprintf("%s|%s|%v", cf.Prefix, cf.issuer(), cf.SignFunc); !r.metaSeen[key] {
+		r.metaSeen[key] = true
+		r.addCase(fmt.Sprintf("CMeta %s %s %s", cf.acfgMetaCoq(), cf.khCoq(), mo.coq()),
+			fmt.Sprintf("discovery+jwks prefix=%q issuer=%s signfunc=%v", cf.Prefix, cf.issuer(), cf.SignFunc), map[string]any{"cfg": *cf}, mo)
+	}
+	return keys, true
+}
+
+// the index of a JWK's alg member, as Model/ArtifactsX.v kalg_ix
+func c08KalgIx(alg string) int {
+	if n, ok := algIx[alg]; ok {
+		return n
+	}
+	switch alg {
+	case "RSA-OAEP-256":
+		return 101
+	case "ECDH-ES":
+		return 102
+	case "RSA-OAEP":
+		return 103
+	case "HS256":
+		return 10
+	}
+	return 100
+}
+
+// c08ServeHook, when set, sees every response the c08 flows obtain (suite c09 scans them)
+var c08ServeHook func(method, target string, form url.Values, hdr http.Header, rec *httptest.ResponseRecorder)
 
 func (r *c08Run) fail(kind, claim, what string, cf any, extra map[string]any) {
 	sig := kind + ":" + claim
@@ -434,6 +688,9 @@ func c08Serve(h http.Handler, method, target string, form url.Values, hdr http.H
 	}
 	rec := httptest.NewRecorder()
 	h.ServeHTTP(rec, req)
+	if c08ServeHook != nil {
+		c08ServeHook(method, target, form, hdr, rec)
+	}
 	return rec
 }
 
@@ -453,10 +710,9 @@ func (cf c08Cfg) client() *goidc.Client {
 		c.JARMKeyEncAlg = goidc.KeyEncryptionAlgorithm(cf.ClEnc)
 		c.PublicJWKS = c08Keys().clientJWKS()
 	}
-	if cf.Pairwise {
-		c.SubIdentifierType = goidc.SubIdentifierPairwise
-	} else {
-		c.SubIdentifierType = goidc.SubIdentifierPublic
+	c.SubIdentifierType = goidc.SubIdentifierType(cf.SubType) // "" : the provider's default applies
+	if cf.Sector {
+		c.SectorIdentifierURI = "https://sector.example/" + c08Client + ".json"
 	}
 	return c
 }
@@ -480,10 +736,6 @@ func (cf c08Cfg) provider() (http.Handler, error) {
 		provider.WithUserInfoSignatureAlgs(def, algs...),
 		provider.WithIDTokenLifetime(cf.IdtLifetime),
 		provider.WithStaticClient(cf.client()),
-		provider.WithSubIdentifierTypes(goidc.SubIdentifierPublic, goidc.SubIdentifierPairwise),
-		provider.WithGeneratePairwiseSubIDFunc(func(_ context.Context, sub string, c *goidc.Client) string {
-			return "pw:" + c.ID + ":" + sub
-		}),
 		provider.WithTokenOptions(func(gi goidc.GrantInfo, c *goidc.Client) goidc.TokenOptions {
 			if cf.JWTTokens {
 				return goidc.NewJWTTokenOptions(def, cf.TokLifetime)
@@ -498,6 +750,25 @@ func (cf c08Cfg) provider() (http.Handler, error) {
 				return goidc.StatusSuccess, nil
 			})),
 	}
+	if cf.DefaultPairwise {
+		opts = append(opts, provider.WithSubIdentifierTypes(goidc.SubIdentifierPairwise, goidc.SubIdentifierPublic))
+	} else {
+		opts = append(opts, provider.WithSubIdentifierTypes(goidc.SubIdentifierPublic, goidc.SubIdentifierPairwise))
+	}
+	if !cf.NoPairwiseFn {
+		opts = append(opts, provider.WithGeneratePairwiseSubIDFunc(func(_ context.Context, sub string, c *goidc.Client) string {
+			return "pw:" + c.ID + ":" + sub
+		}))
+	}
+	if cf.Prefix != "" {
+		opts = append(opts, provider.WithPathPrefix(cf.Prefix))
+	}
+	if cf.SignFunc {
+		opts = append(opts, provider.WithSignFunc(func(_ context.Context, a goidc.SignatureAlgorithm) (string, crypto.Signer, error) {
+			key, _, _ := k.signerFor(string(a))
+			return "srv-" + strings.ToLower(string(a)), key.(crypto.Signer), nil
+		}))
+	}
 	if cf.JARM {
 		opts = append(opts, provider.WithJARM(def, algs...))
 	}
@@ -511,8 +782,8 @@ func (cf c08Cfg) provider() (http.Handler, error) {
 			opts = append(opts, provider.WithJARMEncryption(goidc.RSA_OAEP_256, "ECDH-ES"))
 		}
 	}
-	jwks := k.serverJWKS()
-	p, err := provider.New(goidc.ProfileOpenID, issuer, func(context.Context) (goidc.JSONWebKeySet, error) { return jwks, nil }, opts...)
+	jwks := k.serverJWKS(cf.SignFunc)
+	p, err := provider.New(goidc.ProfileOpenID, cf.issuer(), func(context.Context) (goidc.JSONWebKeySet, error) { return jwks, nil }, opts...)
 	if err != nil {
 		return nil, err
 	}
@@ -610,6 +881,7 @@ func (r *c08Run) open(kind, tok string, wantAlg string, wantEnc int, keys []pubJ
 		return out
 	}
 	out.Pair = c08Keys().pairOf(key.Pub)
+	r.cover(kind, cf, true)
 	return out
 }
 
@@ -744,8 +1016,8 @@ func (r *c08Run) checkIDToken(kind string, j seenJWT, cf c08Cfg, sb siblings, ha
 		return
 	}
 	rp := map[string]any{"id_token": j.Raw, "claims": j.Claims, "siblings": sb}
-	if claimStr(j.Claims, "iss") != issuer {
-		r.fail(kind, "iss", fmt.Sprintf("iss = %q, the issuer is %q", claimStr(j.Claims, "iss"), issuer), cf, rp)
+	if claimStr(j.Claims, "iss") != cf.wantIss() {
+		r.fail(kind, "iss", fmt.Sprintf("iss = %q, the issuer named by the discovery document is %q", claimStr(j.Claims, "iss"), cf.wantIss()), cf, rp)
 	}
 	if aud, _ := claimAud(j.Claims); aud != c08Client {
 		r.fail(kind, "aud", fmt.Sprintf("aud = %q, the client is %q", aud, c08Client), cf, rp)
@@ -760,7 +1032,7 @@ func (r *c08Run) checkIDToken(kind string, j seenJWT, cf c08Cfg, sb siblings, ha
 		r.fail(kind, "nonce", fmt.Sprintf("nonce = %q, the request's nonce is %q", claimStr(j.Claims, "nonce"), cf.Nonce), cf, rp)
 	}
 	if claimStr(j.Claims, "sub") != cf.exportSub() {
-		r.fail(kind, "sub", fmt.Sprintf("sub = %q, expected %q (pairwise=%v)", claimStr(j.Claims, "sub"), cf.exportSub(), cf.Pairwise), cf, rp)
+		r.fail(kind, "sub", fmt.Sprintf("sub = %q, expected %q (%s)", claimStr(j.Claims, "sub"), cf.exportSub(), cf.subjectConfig()), cf, rp)
 	}
 	bits := algBits(j.Alg)
 	for _, h := range []struct{ name, sibling string }{{"at_hash", sb.At}, {"c_hash", sb.Code}, {"s_hash", sb.State}} {
@@ -776,7 +1048,7 @@ func (r *c08Run) checkIDToken(kind string, j seenJWT, cf c08Cfg, sb siblings, ha
 	}
 }
 
-func (r *c08Run) checkAccessToken(kind, tok string, j seenJWT, cf c08Cfg, sub string, expiresIn int, hasExpiresIn bool) {
+func (r *c08Run) checkAccessToken(kind, tok string, j seenJWT, cf c08Cfg, sub string, expiresIn int, hasExpiresIn bool, clientCredentials bool) {
 	if tok == "" {
 		return
 	}
@@ -790,8 +1062,14 @@ func (r *c08Run) checkAccessToken(kind, tok string, j seenJWT, cf c08Cfg, sub st
 	if j.Typ != "at+jwt" {
 		r.fail(kind, "typ", fmt.Sprintf("typ = %q", j.Typ), cf, rp)
 	}
-	if claimStr(j.Claims, "iss") != issuer {
-		r.fail(kind, "iss", fmt.Sprintf("iss = %q", claimStr(j.Claims, "iss")), cf, rp)
+	if claimStr(j.Claims, "iss") != cf.wantIss() {
+		r.fail(kind, "iss", fmt.Sprintf("iss = %q, the issuer named by the discovery document is %q", claimStr(j.Claims, "iss"), cf.wantIss()), cf, rp)
+	}
+	// one grant, one subject: a client whose ID tokens and userinfo carry the pairwise subject must not
+	// be handed the raw subject in a self-contained access token (client_credentials has no end user)
+	if cf.pairwise() && !clientCredentials {
+		r.fail(kind, "sub", fmt.Sprintf("JWT access token with sub = %q issued at %s to a client whose subject is pairwise (%s): ID token and userinfo carry %q",
+			claimStr(j.Claims, "sub"), r.site, cf.subjectConfig(), cf.exportSub()), cf, rp)
 	}
 	if claimStr(j.Claims, "client_id") != c08Client {
 		r.fail(kind, "client_id", fmt.Sprintf("client_id = %q, the client is %q", claimStr(j.Claims, "client_id"), c08Client), cf, rp)
@@ -820,21 +1098,12 @@ func (r *c08Run) flow(cf c08Cfg) {
 	if err != nil {
 		panic(fmt.Sprintf("c08: provider.New: %v (%+v)", err, cf))
 	}
-	// the published keys
-	rec := c08Serve(h, "GET", "/jwks", nil, nil)
-	keys, err := parseJWKS(rec.Body.Bytes())
-	if err != nil || rec.Code != 200 {
-		r.fail("jwks", "format", fmt.Sprintf("GET /jwks: status %d, %v", rec.Code, err), cf, nil)
+	// the discovery document and the published keys
+	keys, ok := r.discover(h, &cf)
+	if !ok {
 		return
 	}
-	for _, k := range keys {
-		for _, m := range k.Members {
-			switch m {
-			case "d", "p", "q", "dp", "dq", "qi", "k", "oth":
-				r.fail("jwks", "private-member", fmt.Sprintf("key %q publishes the private member %q", k.Kid, m), cf, nil)
-			}
-		}
-	}
+	r.site = "authorize"
 	// ---- authorize ----
 	q := url.Values{"client_id": {c08Client}, "redirect_uri": {c08Redirect}, "response_type": {cf.RespType}, "scope": {cf.Scopes}}
 	if cf.RespMode != "" {
@@ -846,7 +1115,7 @@ func (r *c08Run) flow(cf c08Cfg) {
 	if cf.Nonce != "" {
 		q.Set("nonce", cf.Nonce)
 	}
-	rec = c08Serve(h, "GET", "/authorize?"+q.Encode(), nil, nil)
+	rec := c08Serve(h, "GET", cf.path(cf.disc.Authz)+"?"+q.Encode(), nil, nil)
 	vals, transport := c08NavParams(rec)
 	if vals == nil {
 		panic(fmt.Sprintf("c08: authorization request not answered with a navigation: %d %s (%+v)", rec.Code, rec.Body.String(), cf))
@@ -867,8 +1136,8 @@ func (r *c08Run) flow(cf c08Cfg) {
 		obs.Z(claimInt(jarm.Claims, "exp") - claimInt(jarm.Claims, "iat"))
 		rp := map[string]any{"response": resp, "claims": jarm.Claims}
 		if jarm.Claims != nil {
-			if claimStr(jarm.Claims, "iss") != issuer {
-				r.fail("jarm", "iss", fmt.Sprintf("iss = %q", claimStr(jarm.Claims, "iss")), cf, rp)
+			if claimStr(jarm.Claims, "iss") != cf.wantIss() {
+				r.fail("jarm", "iss", fmt.Sprintf("iss = %q, the issuer named by the discovery document is %q", claimStr(jarm.Claims, "iss"), cf.wantIss()), cf, rp)
 			}
 			if aud != c08Client {
 				r.fail("jarm", "aud", fmt.Sprintf("aud = %q, the client is %q", aud, c08Client), cf, rp)
@@ -906,8 +1175,8 @@ func (r *c08Run) flow(cf c08Cfg) {
 	}
 	code, at, idtRaw, state := vals.Get("code"), vals.Get("access_token"), vals.Get("id_token"), vals.Get("state")
 	sb := siblings{At: at, Code: code, State: state}
-	if cf.IssuerParam && vals.Get("iss") != issuer {
-		r.fail("authorization_response", "iss", fmt.Sprintf("iss parameter = %q", vals.Get("iss")), cf, map[string]any{"parameters": vals})
+	if cf.IssuerParam && vals.Get("iss") != cf.wantIss() {
+		r.fail("authorization_response", "iss", fmt.Sprintf("iss parameter = %q, the issuer named by the discovery document is %q", vals.Get("iss"), cf.wantIss()), cf, map[string]any{"parameters": vals})
 	}
 	if state != cf.State {
 		r.fail("authorization_response", "state", "state not echoed", cf, map[string]any{"parameters": vals})
@@ -918,7 +1187,7 @@ func (r *c08Run) flow(cf c08Cfg) {
 	} else if at != "" {
 		r.arts["access_token(opaque)"]++
 	}
-	r.checkAccessToken("access_token", at, atJ, cf, cf.Sub, 0, false)
+	r.checkAccessToken("access_token", at, atJ, cf, cf.Sub, 0, false, false)
 	idt := r.open("id_token", idtRaw, cf.idtAlg(), cf.encPair(), keys, cf)
 	r.checkIDToken("id_token", idt, cf, sb, true)
 	obs.S(vals.Get("iss"))
@@ -938,7 +1207,7 @@ func (r *c08Run) flow(cf c08Cfg) {
 	prm := Params{Redirect: c08Redirect, RespMode: cf.RespMode, RespType: cf.RespType, Scopes: cf.Scopes, State: cf.State, Nonce: cf.Nonce}
 	r.addCase(fmt.Sprintf("CAuthz %s %s %s (mkAuthzIn %s %s %s %s %s 0) %s", cf.acfgCoq(), cf.aclientCoq(), cf.tokoptsCoq(),
 		cS(cf.Sub), cS(cf.Nonce), cS(cf.Scopes), prm.coq(), codeH, obs.coq()),
-		fmt.Sprintf("authorize alg=%s type=%q mode=%q enc=%v/%s pairwise=%v jwt=%v clientalgs=%s/%s/%s", cf.SrvAlg, cf.RespType, cf.RespMode, cf.Enc, cf.ClEnc, cf.Pairwise, cf.JWTTokens, cf.ClIdtAlg, cf.ClUiAlg, cf.ClJarmAlg), note, obs)
+		fmt.Sprintf("authorize alg=%s type=%q mode=%q enc=%v/%s %s jwt=%v clientalgs=%s/%s/%s prefix=%q issuer=%s signfunc=%v", cf.SrvAlg, cf.RespType, cf.RespMode, cf.Enc, cf.ClEnc, cf.subjectConfig(), cf.JWTTokens, cf.ClIdtAlg, cf.ClUiAlg, cf.ClJarmAlg, cf.Prefix, cf.issuer(), cf.SignFunc), note, obs)
 
 	subs := map[string]string{}
 	if idt.Claims != nil {
@@ -949,20 +1218,22 @@ func (r *c08Run) flow(cf c08Cfg) {
 	if code != "" {
 		form := url.Values{"grant_type": {"authorization_code"}, "code": {code}, "redirect_uri": {c08Redirect},
 			"client_id": {c08Client}, "client_secret": {c08Secret}}
-		rec = c08Serve(h, "POST", "/token", form, nil)
+		rec = c08Serve(h, "POST", cf.path(cf.disc.Token), form, nil)
 		var m map[string]any
 		_ = json.Unmarshal(rec.Body.Bytes(), &m)
 		if rec.Code != 200 {
 			panic(fmt.Sprintf("c08: code not redeemed: %d %s (%+v)", rec.Code, rec.Body.String(), cf))
 		}
+		r.site = "token"
 		r.tokenResponse("token_response", m, keys, cf, cf.Sub, "GAuthorizationCode", cf.Scopes, cf.Nonce, subs, true)
 		useAT = claimStr(m, "access_token")
 		// refresh: the ID token of a refreshed grant
 		if rt := claimStr(m, "refresh_token"); rt != "" {
 			form = url.Values{"grant_type": {"refresh_token"}, "refresh_token": {rt}, "client_id": {c08Client}, "client_secret": {c08Secret}}
-			rec = c08Serve(h, "POST", "/token", form, nil)
+			rec = c08Serve(h, "POST", cf.path(cf.disc.Token), form, nil)
 			var m2 map[string]any
 			_ = json.Unmarshal(rec.Body.Bytes(), &m2)
+			r.site = "refresh"
 			if rec.Code == 200 {
 				r.tokenResponse("token_response(refresh)", m2, keys, cf, cf.Sub, "GRefreshToken", cf.Scopes, cf.Nonce, subs, true)
 				useAT = claimStr(m2, "access_token")
@@ -971,7 +1242,8 @@ func (r *c08Run) flow(cf c08Cfg) {
 	}
 	// ---- userinfo ----
 	if useAT != "" && strings.Contains(" "+cf.Scopes+" ", " openid ") {
-		rec = c08Serve(h, "GET", "/userinfo", nil, http.Header{"Authorization": {"Bearer " + useAT}})
+		r.site = "userinfo"
+		rec = c08Serve(h, "GET", cf.path(cf.disc.Userinfo), nil, http.Header{"Authorization": {"Bearer " + useAT}})
 		if rec.Code != 200 {
 			panic(fmt.Sprintf("c08: userinfo refused: %d %s (%+v)", rec.Code, rec.Body.String(), cf))
 		}
@@ -983,8 +1255,9 @@ func (r *c08Run) flow(cf c08Cfg) {
 			rp := map[string]any{"userinfo": body, "claims": uj.Claims}
 			aud, _ := claimAud(uj.Claims)
 			if uj.Claims != nil {
-				if claimStr(uj.Claims, "iss") != issuer {
-					r.fail("userinfo", "iss", fmt.Sprintf("iss = %q", claimStr(uj.Claims, "iss")), cf, rp)
+				if claimStr(uj.Claims, "iss") != cf.wantIss() {
+					r.fail("userinfo", "iss", fmt.Sprintf("GET %s: the signed userinfo response says iss = %q, the issuer named by the discovery document (and by the ID token) is %q",
+						cf.path(cf.disc.Userinfo), claimStr(uj.Claims, "iss"), cf.wantIss()), cf, rp)
 				}
 				if aud != c08Client {
 					r.fail("userinfo", "aud", fmt.Sprintf("aud = %q, the client is %q", aud, c08Client), cf, rp)
@@ -1002,6 +1275,7 @@ func (r *c08Run) flow(cf c08Cfg) {
 			uo.S(aud)
 		} else {
 			r.arts["userinfo(json)"]++
+			r.cover("userinfo", cf, false)
 			var m map[string]any
 			_ = json.Unmarshal([]byte(body), &m)
 			subs["userinfo"] = claimStr(m, "sub")
@@ -1012,7 +1286,7 @@ func (r *c08Run) flow(cf c08Cfg) {
 			uo.S(claimStr(m, "sub"))
 		}
 		r.addCase(fmt.Sprintf("CUserInfo %s %s %s %s", cf.acfgCoq(), cf.aclientCoq(), cS(cf.Sub), uo.coq()),
-			fmt.Sprintf("userinfo alg=%s clientalg=%q enc=%v/%s pairwise=%v", cf.SrvAlg, cf.ClUiAlg, cf.Enc, cf.ClEnc, cf.Pairwise), note, uo)
+			fmt.Sprintf("userinfo alg=%s clientalg=%q enc=%v/%s %s prefix=%q issuer=%s signfunc=%v", cf.SrvAlg, cf.ClUiAlg, cf.Enc, cf.ClEnc, cf.subjectConfig(), cf.Prefix, cf.issuer(), cf.SignFunc), note, uo)
 	}
 	// one grant: every sub agrees, after the pairwise transformation
 	for where, s := range subs {
@@ -1032,7 +1306,7 @@ func (r *c08Run) tokenResponse(kind string, m map[string]any, keys []pubJWK, cf 
 		r.arts["access_token(opaque)"]++
 	}
 	_, hasExp := m["expires_in"]
-	r.checkAccessToken("access_token", at, atJ, cf, sub, claimInt(m, "expires_in"), true)
+	r.checkAccessToken("access_token", at, atJ, cf, sub, claimInt(m, "expires_in"), true, gt == "GClientCredentials")
 	if !hasExp {
 		r.fail(kind, "expires_in", "no expires_in", cf, map[string]any{"response": m})
 	}
@@ -1066,7 +1340,7 @@ func (r *c08Run) tokenResponse(kind string, m map[string]any, keys []pubJWK, cf 
 	client := cS(c08Client)
 	r.addCase(fmt.Sprintf("CToken %s %s %s (mkGInfo %s %s %s %s 0 0) %s %s", cf.acfgCoq(), cf.aclientCoq(), cf.tokoptsCoq(),
 		gt, cS(sub), client, cS(scopes), cS(nonce), o.coq()),
-		fmt.Sprintf("%s alg=%s grant=%s enc=%v/%s pairwise=%v jwt=%v", kind, cf.SrvAlg, gt, cf.Enc, cf.ClEnc, cf.Pairwise, cf.JWTTokens), map[string]any{"cfg": cf}, o)
+		fmt.Sprintf("%s alg=%s grant=%s enc=%v/%s %s jwt=%v prefix=%q issuer=%s signfunc=%v", kind, cf.SrvAlg, gt, cf.Enc, cf.ClEnc, cf.subjectConfig(), cf.JWTTokens, cf.Prefix, cf.issuer(), cf.SignFunc), map[string]any{"cfg": cf}, o)
 }
 
 func (r *c08Run) addCase(term, note string, spec map[string]any, obs atoms) {
@@ -1109,10 +1383,13 @@ func (r *c08Run) grants(cf c08Cfg) {
 	if err != nil {
 		panic(err)
 	}
-	rec := c08Serve(h, "GET", "/jwks", nil, nil)
-	keys, _ := parseJWKS(rec.Body.Bytes())
+	keys, ok := r.discover(h, &cf)
+	if !ok {
+		return
+	}
+	r.site = "client_credentials"
 	form := url.Values{"grant_type": {"client_credentials"}, "scope": {"email"}, "client_id": {c08Client}, "client_secret": {c08Secret}}
-	rec = c08Serve(h, "POST", "/token", form, nil)
+	rec := c08Serve(h, "POST", cf.path(cf.disc.Token), form, nil)
 	var m map[string]any
 	_ = json.Unmarshal(rec.Body.Bytes(), &m)
 	if rec.Code != 200 {
@@ -1121,7 +1398,8 @@ func (r *c08Run) grants(cf c08Cfg) {
 	r.tokenResponse("token_response(client_credentials)", m, keys, cf, c08Client, "GClientCredentials", "email", "", nil, false)
 	form = url.Values{"grant_type": {"urn:ietf:params:oauth:grant-type:jwt-bearer"}, "assertion": {"ok:" + cf.Sub}, "scope": {cf.Scopes},
 		"client_id": {c08Client}, "client_secret": {c08Secret}}
-	rec = c08Serve(h, "POST", "/token", form, nil)
+	r.site = "jwt-bearer"
+	rec = c08Serve(h, "POST", cf.path(cf.disc.Token), form, nil)
 	m = nil
 	_ = json.Unmarshal(rec.Body.Bytes(), &m)
 	if rec.Code != 200 {
@@ -1136,7 +1414,7 @@ func (r *c08Run) grants(cf c08Cfg) {
 	}
 }
 
-const c08Header = `From Verif Require Import Base Scope Types Prog Pop Token Authorize Artifacts.
+const c08Header = `From Verif Require Import Base Scope Types Prog Pop Token Authorize Artifacts ArtifactsX.
 From Verif.Corr Require Import C08.
 Local Open Scope N_scope.
 `
@@ -1179,6 +1457,9 @@ func (r *c08Run) write() {
 	for k, v := range r.arts {
 		ctx.Meta.Dist[k] += v
 	}
+	for k, v := range r.matrix {
+		ctx.Meta.Dist["matrix/"+k] += v
+	}
 }
 
 var c08RespTypes = []string{"code", "token", "id_token", "id_token token", "code id_token", "code token", "code id_token token"}
@@ -1206,29 +1487,40 @@ func c08Modes(respType string, jarm bool, clientJarm bool) []string {
 	return ms
 }
 
+// every way a registration and a provider determine the subject type
+var c08Subjects = []struct {
+	SubType         string
+	DefaultPairwise bool
+}{{"public", false}, {"pairwise", false}, {"", false}, {"", true}, {"public", true}, {"pairwise", true}}
+
+func c08OtherAlg(a string, k int) string {
+	for j, x := range c08SigAlgs {
+		if x == a {
+			return c08SigAlgs[(j+k)%len(c08SigAlgs)]
+		}
+	}
+	return a
+}
+
 func init() {
 	register(&Suite{Name: "c08", Run: func(ctx *RunCtx) {
-		r := &c08Run{ctx: ctx, findings: map[string]Finding{}, arts: map[string]int{}, seen: map[string]bool{}}
+		r := newC08Run(ctx)
 		rng := ctx.R
 		rounds := ctx.N(1, 10)
 		i := rng.Intn(1000)
-		otherAlg := func(a string, k int) string {
-			for j, x := range c08SigAlgs {
-				if x == a {
-					return c08SigAlgs[(j+k)%len(c08SigAlgs)]
-				}
-			}
-			return a
-		}
+		otherAlg := c08OtherAlg
 		for round := 0; round < rounds; round++ {
 			for _, alg := range c08SigAlgs {
 				for _, rt := range c08RespTypes {
 					clientJarm := (i/3)%4 == 0
 					for _, mode := range c08Modes(rt, true, clientJarm) {
 						i++
+						sc := c08Subjects[rng.Intn(len(c08Subjects))]
 						cf := c08Cfg{SrvAlg: alg, RespType: rt, RespMode: mode, JARM: true,
 							IdtLifetime: pick(rng, []int{600, 120, 3599}), TokLifetime: pick(rng, []int{300, 77, 3600}),
-							IssuerParam: i%3 == 0, Enc: i%2 == 0, Pairwise: (i/2)%2 == 0, JWTTokens: (i/4)%3 != 0,
+							IssuerParam: i%3 == 0, Enc: i%2 == 0, SubType: sc.SubType, DefaultPairwise: sc.DefaultPairwise, JWTTokens: (i/4)%3 != 0,
+							Sector: rng.Intn(4) == 0, NoPairwiseFn: rng.Intn(8) == 0,
+							Prefix: pick(rng, c08Prefixes), Issuer: pick(rng, c08Issuers), SignFunc: rng.Intn(4) == 0,
 							Sub: pick(rng, []string{"alice", "bob", "user-" + fmt.Sprint(rng.Intn(1000))}),
 							Scopes: pick(rng, []string{"openid", "openid email", "openid email profile"})}
 						if cf.Enc {
@@ -1274,12 +1566,41 @@ func init() {
 			for _, rt := range c08RespTypes {
 				for _, mode := range c08Modes(rt, false, false) {
 					r.flow(c08Cfg{SrvAlg: alg, RespType: rt, RespMode: mode, IdtLifetime: 600, TokLifetime: 300, JWTTokens: true,
-						Sub: "carol", Scopes: "openid email", State: "st-nj", Nonce: "n-nj"})
+						SubType: "public", Sub: "carol", Scopes: "openid email", State: "st-nj", Nonce: "n-nj"})
+				}
+			}
+		}
+		// the cross section, the same for every seed: every artifact kind (ID token from the authorization,
+		// token and refresh responses, JWT access token, JARM response object, signed userinfo; plus the
+		// client_credentials and jwt-bearer responses) x path prefix x issuer variant x algorithm choice
+		// (the client's own / the provider's default) x subject configuration
+		n := 0
+		for _, prefix := range c08Prefixes {
+			for _, iss := range c08Issuers {
+				for _, own := range []bool{false, true} {
+					for _, sc := range c08Subjects {
+						n++
+						alg := c08SigAlgs[n%len(c08SigAlgs)]
+						cf := c08Cfg{SrvAlg: alg, RespType: "code id_token token", RespMode: []string{"", "jwt", "form_post.jwt", "fragment.jwt"}[n%4], JARM: true,
+							IdtLifetime: 600, TokLifetime: 300, JWTTokens: true, IssuerParam: n%2 == 0,
+							SubType: sc.SubType, DefaultPairwise: sc.DefaultPairwise, Sector: n%5 == 0,
+							Prefix: prefix, Issuer: iss, SignFunc: n%3 == 0, Enc: n%4 >= 2,
+							Sub: fmt.Sprintf("user-%d", rng.Intn(1000)), Scopes: "openid email", State: "st-x", Nonce: "n-x",
+							ClUiAlg: alg} // registering the provider's default: userinfo is signed in every cell
+						if cf.Enc {
+							cf.ClEnc = []string{"RSA-OAEP-256", "ECDH-ES"}[n%2]
+						}
+						if own {
+							cf.ClIdtAlg, cf.ClUiAlg, cf.ClJarmAlg = otherAlg(alg, 1+n%6), otherAlg(alg, 2+n%5), otherAlg(alg, 3+n%4)
+						}
+						r.flow(cf)
+						r.grants(cf)
+					}
 				}
 			}
 		}
 		r.write()
-		ctx.Meta.Rule = "server signing algorithm (RS256, PS256/384/512, ES256/384/512) x 7 response types x every response mode valid for the type (plain and JWT-secured), rotating per-client ID-token/userinfo/JARM algorithms, encryption to an RSA-OAEP-256 or ECDH-ES client key, public/pairwise subjects, opaque/JWT access tokens, issuer parameter, lifetimes; distinct = distinct abstract responses"
+		ctx.Meta.Rule = "server signing algorithm (RS256, PS256/384/512, ES256/384/512) x 7 response types x every response mode valid for the type (plain and JWT-secured), with per-client ID-token/userinfo/JARM algorithms, encryption to an RSA-OAEP-256 or ECDH-ES client key, opaque/JWT access tokens, issuer parameter, lifetimes, and - drawn independently per configuration - path prefix (none, /auth, /a/b), issuer variant (host, host:port, host/path), subject configuration (subject_type public/pairwise/absent x default public/pairwise, sector identifier, no pairwise function), delegated signing (WithSignFunc, public-only signing keys in the key set); plus a seed-independent cross section prefix x issuer x algorithm choice x subject configuration with every artifact kind in each cell (input_distribution matrix/...); endpoints, issuer and jwks_uri are read from the discovery document served under the prefix; distinct = distinct abstract responses"
 		ctx.Meta.Samples = append(ctx.Meta.Samples, r.notes[0], r.notes[len(r.notes)/2])
 		ctx.Meta.Extra = map[string]any{"artifacts_verified": r.arts}
 	}})
